@@ -48,4 +48,18 @@ var checks = map[string]*Check{
 		Assumptions: commonAssumptions,
 		RealStub:    coreRealStub,
 	},
+	"C04": {
+		Legs: []Leg{
+			{World: "C04", Weight: 3},
+			{World: "C04/faulty", Weight: 2},
+			{World: "C04/window", Weight: 1},
+			{World: "C04b", Weight: 2},
+			{World: "C04b/faulty", Weight: 2},
+			{World: "C04b", Race: true, Weight: 1},
+		},
+		Probes:      []string{"id_listed_more_than_once", "concurrent_pollers", "window_relist", "poller_aborted"},
+		Rule:        "(a) real agent vs scripted fake proxy: pending-list replies repeat/permute/overlap 2..12 (thorough ..60) request IDs, plus a dedup-window leg re-listing an ID after up to 998 other IDs; counting backend; fetch/upload 5xx in the faulty leg. (b) real proxy with 2..5 concurrent harness pollers (some abandoning the list call) and 2..10 (..40) clients; every ID must be reported in exactly one list reply.",
+		Assumptions: commonAssumptions,
+		RealStub:    coreRealStub,
+	},
 }
